@@ -29,7 +29,7 @@ var c12Names = []c12Name{
 	{".txt", ""}, {".txt.twig", ""}, {"", "html"}, {".xml", "html"}, {".", "html"}, {".unknown.twig", "html"}, {".twig", "html"},
 }
 
-const c12Positions = 29
+const c12Positions = 31
 
 // inline sources (the template name is the source) ending in text that looks like a file extension
 var c12InlineSuffix = map[int]string{2: "v1.0 e.g. end", 3: " see notes.txt", 4: " app.js", 5: " x.css.twig"}
@@ -134,6 +134,15 @@ func c12ScenarioX(pos int, ext, E string) (tpls map[string]string, main string, 
 		tpls[main] = "{% extends '" + t("base") + "' %}{% block b %}{% embed '" + t("emb") + "' %}{% block b %}{% endblock %}{% endembed %}" + inner + "{% endblock %}"
 		tpls[t("base")] = "A{% block b %}x{% endblock %}Z"
 		tpls[t("emb")] = "{% block b %}x{% endblock %}"
+	// macros defined in a template that extends another
+	case 29: // imported from elsewhere, the result marked raw by the author: the print inside must have escaped the value
+		tpls[main] = "{% import '" + t("forms") + "' as mm %}A{{ mm.m(x, o, c)|raw }}Z"
+		tpls[t("forms")] = "{% extends '" + t("base") + "' %}{% macro m(x, o, c) %}" + inner + "{% endmacro %}{% block b %}{% endblock %}"
+		tpls[t("base")] = "{% block b %}x{% endblock %}"
+	case 30: // the same through from-import
+		tpls[main] = "{% from '" + t("forms") + "' import m %}A{{ m(x, o, c)|raw }}Z"
+		tpls[t("forms")] = "{% extends '" + t("base") + "' %}{% block b %}{% endblock %}{% macro m(x, o, c) %}" + inner + "{% endmacro %}"
+		tpls[t("base")] = "{% block b %}x{% endblock %}"
 	case 28: // the same name at two nesting levels of embeds
 		tpls[main] = "A{% embed '" + t("emb") + "' %}{% block b %}{% embed '" + t("emb") + "' %}{% block b %}" + inner + "{% endblock %}{% endembed %}{% endblock %}{% endembed %}Z"
 		tpls[t("emb")] = "{% block b %}x{% endblock %}"
@@ -144,7 +153,7 @@ func c12ScenarioX(pos int, ext, E string) (tpls map[string]string, main string, 
 var c12Forms = []string{"x", "o.attr", "f()", "(x ~ '')", "(c ? x : '')", "\"#{x}\""}
 
 // modifiers: 0 none, 1 raw, 2 escape, 3 escape('html'), 4 escape(own type), 5 escape('js'), 6 safe for the same type, 7 safe for another type
-const c12Mods = 11 // 10: marked safe for another type, then re-wrapped as safe for the own type (the re-wrap is discarded)
+const c12Mods = 12 // 11: marked safe for a custom content type only; 10: marked safe for another type, then re-wrapped as safe for the own type (the re-wrap is discarded)
 
 type c12Loader struct{ m map[string]string }
 
@@ -263,7 +272,7 @@ func c12Run(c core.Case) core.Result {
 	case 9:
 		E += "|escape('nosuch')|upper|escape('txt')"
 	}
-	if (mod == 6 || mod == 7 || mod == 10) && form > 2 {
+	if (mod == 6 || mod == 7 || mod == 10 || mod == 11) && form > 2 {
 		return core.Skipped("safe-value-lost-by-expression")
 	}
 	tpls, main, direct, cross := c12ScenarioX(pos, ext, E)
@@ -302,6 +311,8 @@ func c12Run(c core.Case) core.Result {
 			other = "html"
 		}
 		val = stick.NewSafeValue(payload, other)
+	case 11:
+		val = stick.NewSafeValue(payload, "zzcustom") // a user-defined content type: no template of this corpus has it
 	case 10:
 		other := "js"
 		if typ != "html" {
@@ -417,13 +428,13 @@ func c12Levels(tier string) []core.Level {
 	}
 	names := append(all(len(c12Names)), -1, -2, -3, -4, -5)
 	lv := []core.Level{
-		{Name: "29 print positions x variable x all 13 payloads x all 18 template names x no modifier", Gen: func(emit func(core.Case)) {
+		{Name: "31 print positions x variable x all 13 payloads x all 18 template names x no modifier", Gen: func(emit func(core.Case)) {
 			gen(all(len(c12Payloads)), []int{0}, []int{0}, names, emit)
 		}},
-		{Name: "29 positions x 6 value forms x 13 payloads x 18 names x 11 modifiers (full product)", Gen: func(emit func(core.Case)) {
+		{Name: "31 positions x 6 value forms x 13 payloads x 18 names x 12 modifiers (full product)", Gen: func(emit func(core.Case)) {
 			gen(all(len(c12Payloads)), all(len(c12Forms)), all(c12Mods), names, emit)
 		}},
-		{Name: "values that are not strings: 29 positions x {variable, function result} x 13 payloads carried as the String() of 9 Go types (named int, int64, uint8, bool true/false, float64, float32; struct; pointer) x 18 names x {none, raw, escape, escape('html'), escape(own type)}", Gen: func(emit func(core.Case)) {
+		{Name: "values that are not strings: 31 positions x {variable, function result} x 13 payloads carried as the String() of 9 Go types (named int, int64, uint8, bool true/false, float64, float32; struct; pointer) x 18 names x {none, raw, escape, escape('html'), escape(own type)}", Gen: func(emit func(core.Case)) {
 			for pos := 0; pos < c12Positions; pos++ {
 				for _, f := range []int{0, 2} {
 					for pi := range c12Payloads {
@@ -446,7 +457,7 @@ func init() {
 	core.Register(&core.Check{
 		ID:       "C12",
 		Category: "exploration",
-		Rule: "full product of 29 print positions (top level, if / else / elseif branch, for body, for-else, block, nested block, overriding block of a child, block via parent(), inherited block, included template, embedded template, embed override block, set-capture body, filter section, macro body, imported macro; macro result / capture / parent() / block() printed with |raw; html page including a js partial, js child overriding / inheriting a block of an html base; two blocks of one name in one file: two embeds, a block containing an embed, an override embedding first, embeds at two levels) x 6 value forms (variable, attribute, function result, concatenation, conditional, interpolation) x 13 payloads (< > \" ' & </script> \\ ; newline, multi-byte, astral, mixed) x 18 template names (html, js, css, txt with and without .twig, no extension, unknown extension, trailing dot, inline sources without a dot, with dots, and ending in '.txt' / '.js' / '.css.twig') x 11 modifiers (none, raw, escape, escape('html'), escape(own type), escape('js'), escape('txt'), a chain of unknown strategies, value marked safe for the same / another type, marked safe for another type and then re-wrapped for the own type), in a twig.New environment; and the payloads carried as the String() of 9 non-string Go types (named numeric and bool kinds, struct, pointer). " +
+		Rule: "full product of 31 print positions (top level, if / else / elseif branch, for body, for-else, block, nested block, overriding block of a child, block via parent(), inherited block, included template, embedded template, embed override block, set-capture body, filter section, macro body, imported macro; macro result / capture / parent() / block() printed with |raw; html page including a js partial, js child overriding / inheriting a block of an html base; two blocks of one name in one file: two embeds, a block containing an embed, an override embedding first, embeds at two levels; macros defined in an extending template, imported elsewhere through import / from) x 6 value forms (variable, attribute, function result, concatenation, conditional, interpolation) x 13 payloads (< > \" ' & </script> \\ ; newline, multi-byte, astral, mixed) x 18 template names (html, js, css, txt with and without .twig, no extension, unknown extension, trailing dot, inline sources without a dot, with dots, and ending in '.txt' / '.js' / '.css.twig') x 12 modifiers (none, raw, escape, escape('html'), escape(own type), escape('js'), escape('txt'), a chain of unknown strategies, value marked safe for the same / another type, marked safe for another type and then re-wrapped for the own type, marked safe for a user-defined type only), in a twig.New environment; and the payloads carried as the String() of 9 non-string Go types (named numeric and bool kinds, struct, pointer). " +
 			"Oracle: expected content type = registered escaper of the extension, none for txt, html otherwise; a directly printed value must decode (decoder of that context) to the payload and lie in the context's inert alphabet: escaped exactly once; raw and same-type safe values verbatim; values reaching the output through a capture / macro result / parent() must be inert. distinct = distinct configuration; non-trivial = an assertion was made",
 		Assumptions: []string{
 			"for an explicit escape of another type (html inside js/css, js inside css, txt or an unknown strategy anywhere) 'exactly once' is ambiguous; only inertness for the template's own type is asserted, which the statement pins under either reading",
